@@ -22,7 +22,7 @@
    and insider-signed invalid commits are refused, never panic (./check C03).
    Statements only. *)
 From Coq Require Import NArith List Bool String.
-From MlsV Require Import Codec CodecProofs CodecTypes Sha2 Hkdf Framing FramingProofs.
+From MlsV Require Import Codec CodecProofs CodecTypes Sha2 Hkdf Framing FramingProofs Admission AdmissionGen AdmissionGenProofs.
 Import ListNotations.
 Local Open Scope N_scope.
 
@@ -87,3 +87,11 @@ Print Assumptions C03_sign_content_injective.
 Print Assumptions C03_private_message_fully_authenticated.
 Print Assumptions C03_accepted_public_message_is_authentic.
 Print Assumptions C03_accepted_content_is_the_senders.
+
+(* the admission rule (version, group id, epoch per content type, epoch window, no unencrypted
+   application data) IS what the translator reads in MessageProcessor::check_metadata, shared by
+   members and observers (regenerated on every run) *)
+Theorem C03_translated_check_metadata_is_the_model : forall v gid epoch ct cipher,
+  gen_check_metadata v gid epoch ct cipher = check_metadata v gid epoch ct cipher.
+Proof. exact gen_check_metadata_is_model. Qed.
+Print Assumptions C03_translated_check_metadata_is_the_model.
